@@ -59,6 +59,11 @@ def main():
                 print('   ', l[:200])
             if r.returncode == 2:
                 print((r.stdout + r.stderr)[-1500:])
+            for a in flags:
+                if a.startswith('--keep-replays='):
+                    os.makedirs(a.split('=', 1)[1], exist_ok=True)
+                    with open(os.path.join(a.split('=', 1)[1], '%s.out' % p), 'w') as fo:
+                        fo.write(r.stdout + '\n--- stderr ---\n' + r.stderr[-5000:])
         keep = [a.split('=', 1)[1] for a in flags if a.startswith('--keep-replays=')]
         if keep and os.path.isdir(os.path.join(vc, 'replays')):
             shutil.copytree(os.path.join(vc, 'replays'), keep[0], dirs_exist_ok=True)
